@@ -80,11 +80,29 @@ def states(rng, n, quick):
     for _ in range(1 if quick else 2):
         r = rng.normal(size=N) + 1j * rng.normal(size=N)
         out.append(('random', r / np.linalg.norm(r)))
+    # boundaries: a near-certain outcome (probability 1 - delta^2, delta^2 from 1e-5 down to 1e-12) next to exact zeros
+    if N >= 2:
+        a, b = (int(x) for x in rng.permutation(N)[:2])
+        for delta in ((3e-3, 1e-4, 1e-6) if not quick else (3e-3, 1e-6)):
+            v = np.zeros(N, dtype=np.complex128); v[a] = 1; v[b] = delta * np.exp(1j * rng.uniform(0, 6))
+            out.append(('near-certain', v / np.linalg.norm(v)))
+    # dtypes / layouts the clean tree accepts: real float64, integer basis state, single precision, non-contiguous view
+    r = rng.normal(size=N)
+    out.append(('real-float64', r / np.linalg.norm(r)))
+    ib = np.zeros(N, dtype=np.int64); ib[int(rng.integers(0, N))] = 1
+    out.append(('int-basis', ib))
+    r = rng.normal(size=N) + 1j * rng.normal(size=N)
+    out.append(('complex64', (r / np.linalg.norm(r)).astype(np.complex64)))
+    r = rng.normal(size=N)
+    out.append(('float32', (r / np.linalg.norm(r)).astype(np.float32)))
+    r = rng.normal(size=N) + 1j * rng.normal(size=N)
+    big = np.zeros(2 * N, dtype=np.complex128); big[::2] = r / np.linalg.norm(r)
+    out.append(('strided-view', big[::2]))
     return out
 
 
 class MCase:
-    __slots__ = ('op', 'n', 'subset', 'family', 'psi', 'seed', 'res', 'ind1', 'twin', 'key', 'ntkey')
+    __slots__ = ('op', 'n', 'subset', 'family', 'psi', 'seed', 'res', 'ind1', 'twin', 'key', 'ntkey', 'tol', 'alias', 'snap')
 
 
 def measure_cases(ctx, rng):
@@ -93,6 +111,22 @@ def measure_cases(ctx, rng):
     cases = []
     nmax = 4 if ctx.quick() else 6
     todo = []
+    # original witnesses of the repaired defects of this property (corpus/C11/*.json), first in both tiers
+    import glob, json, os
+    for f in sorted(glob.glob(os.path.join(common.VERIF, 'corpus', 'C11', '*.json'))):
+        for e in json.load(open(f))['entries']:
+            N = 2 ** e['n']
+            if e['state'] == 'ghz':
+                v = np.zeros(N, dtype=np.complex128); v[0] = v[-1] = 1 / np.sqrt(2)
+            elif e['state'] == 'w':
+                v = np.zeros(N, dtype=np.complex128)
+                for q in range(e['n']):
+                    v[1 << q] = 1
+                v = v / np.linalg.norm(v)
+            else:
+                v = np.ones(N, dtype=np.complex128) / np.sqrt(N)
+            todo.append((e['n'], tuple(e['index']), [('corpus:' + e['state'], v)]))
+            ctx.count('corpus')
     for n in range(1, nmax + 1):
         sts = states(rng, n, ctx.quick())
         for r in range(1, n + 1):
@@ -101,7 +135,7 @@ def measure_cases(ctx, rng):
     if ctx.quick():
         # larger registers in the quick tier: subsets whose complement / whose kept part splits into three or more runs
         for n, subset in [(5, (1, 3)), (5, (0, 2, 4)), (6, (1, 3)), (6, (1, 3, 5)), (6, (0, 2, 4)), (6, (1, 4)), (6, (0, 1, 3, 5)), (5, (2,)), (6, (0, 1, 2, 3, 4, 5))]:
-            sts = [x for x in states(rng, n, True) if x[0] in ('ghz', 'sparse', 'random', 'product')]
+            sts = [x for x in states(rng, n, True) if x[0] in ('ghz', 'sparse', 'random', 'product', 'near-certain', 'complex64')]
             todo.append((n, subset, sts))
     for n, subset, sts in todo:
         for fam, psi in sts:
@@ -112,17 +146,32 @@ def measure_cases(ctx, rng):
                 if len(seen) >= 12 or (want and want <= set(seen)) and trial >= 2:
                     break
                 seed = int(rng.integers(0, 2 ** 31))
-                res = guarded(lambda: st.measure_quantum_vector(psi, subset if rng.integers(0, 2) else list(subset), seed=np.random.default_rng(seed)))
+                idx_form = subset if rng.integers(0, 2) else list(subset)
+                psi0 = psi.copy()
+                res = guarded(lambda: st.measure_quantum_vector(psi, idx_form, seed=np.random.default_rng(seed)))
+                alias = None
+                if not (np.array_equal(psi, psi0) and psi.dtype == psi0.dtype):
+                    alias = 'the caller\'s state was modified by the measurement'
+                    psi = psi0.copy()      # keep generating from the intended state
                 if isinstance(res, str):
-                    seen[('err', trial)] = (seed, res)
+                    seen[('err', trial)] = (seed, res, None, alias)
                     break
+                if alias is None and isinstance(res[2], np.ndarray) and np.shares_memory(res[2], psi):
+                    alias = 'the returned state shares memory with the caller\'s state'
+                snap = ([int(b) for b in res[0]], np.array(res[1], copy=True), np.array(res[2], copy=True))
+                if alias is None:
+                    again = guarded(lambda: st.measure_quantum_vector(psi, idx_form, seed=np.random.default_rng(seed)))
+                    if isinstance(again, str) or [int(b) for b in again[0]] != snap[0] or not np.array_equal(again[1], snap[1]) or not np.array_equal(again[2], snap[2]):
+                        alias = 'a second call with the same state, qubits and seed returned something else'
                 bitstr = res[0]
                 ind1 = int(''.join(str(int(b)) for b in bitstr), 2) if len(bitstr) else 0
-                if ind1 not in seen:
-                    seen[ind1] = (seed, res)
-            for ind1, (seed, res) in seen.items():
+                if ind1 not in seen or alias:
+                    seen[ind1] = (seed, res, snap, alias)
+            for ind1, (seed, res, snap, alias) in seen.items():
                 c = MCase()
                 c.n, c.subset, c.family, c.psi, c.seed, c.res = n, subset, fam, psi, seed, res
+                c.snap, c.alias = snap, alias
+                c.tol = 1e-5 if fam in ('complex64', 'float32') else TOL
                 c.key = 'measure_quantum_vector'
                 if isinstance(res, str):
                     c.ind1 = 0
@@ -136,6 +185,12 @@ def measure_cases(ctx, rng):
                         c.twin = None
                 c.ntkey = ('measure', n, subset, fam, ind1)
                 cases.append(c)
+    # results of earlier calls must still hold their values after all later calls (returned arrays must not alias cached buffers)
+    for c in cases:
+        if c.alias is None and not isinstance(c.res, str) and c.snap is not None:
+            if [int(b) for b in c.res[0]] != c.snap[0] or not np.array_equal(c.res[1], c.snap[1]) or not np.array_equal(c.res[2], c.snap[2]):
+                c.alias = 'the result of an earlier measurement was changed by later measurements (it aliases a shared buffer)'
+                c.res = (c.snap[0], c.snap[1], c.snap[2])
     ctx.extra['exhaustive'] = True
     ctx.extra['exhaustive_domain'] = f'every non-empty ascending qubit subset for n = 1..{nmax} (all {sum(2**n - 1 for n in range(1, nmax + 1))} of them), 7-8 state families each'
     return cases
@@ -161,10 +216,10 @@ def check_measure_line(c, line):
     if ''.join(str(int(b)) for b in bitstr) != bits:
         return False, 'bit string'
     p_model = dec_q(prob).real
-    if p_impl.shape != p_model.shape or not np.all(np.abs(p_impl - p_model) <= TOL):
+    if p_impl.shape != p_model.shape or not np.all(np.abs(p_impl - p_model) <= c.tol):
         return False, 'probabilities'
     proj_model = dec_q(proj)
-    if not close(q2 * math.sqrt(p_impl[c.ind1]), proj_model, TOL):
+    if not close(q2 * math.sqrt(p_impl[c.ind1]), proj_model, c.tol):
         return False, 'post-measurement state'
     return True, ''
 
@@ -262,6 +317,14 @@ def circuit_cases(ctx, rng):
         if any(s[0] == 'm' for s in steps) and not any(s[0] == 's' for s in steps) and width < 5 and it % 2 == 0:
             steps.append(('s', 1)); width += 1       # a shift after the MeasureGate was appended
             steps.append(('u', REF['H'], (int(rng.integers(0, width)),)))
+        if it % 5 == 1 and not any(s[0] == 's' for s in steps):
+            # the same subset measured twice with a gate in between: two different records on one cached grouping; the first
+            # gate's record is read after the whole run
+            subset = tuple(sorted(int(x) for x in rng.permutation(width)[:int(rng.integers(1, width + 1))]))
+            steps.append(('m', subset, int(rng.integers(0, 2 ** 31))))
+            steps.append(('u', REF['H'], (int(subset[0]),)))
+            steps.append(('m', subset, int(rng.integers(0, 2 ** 31))))
+            nm += 2
         if nm == 0:
             subset = tuple(sorted(int(x) for x in rng.permutation(width)[:int(rng.integers(1, width + 1))]))
             steps.insert(int(rng.integers(0, len(steps) + 1)) if not any(s[0] == 's' for s in steps) else len(steps), ('m', subset, int(rng.integers(0, 2 ** 31))))
@@ -436,19 +499,22 @@ def probe(ctx):
     st = numqi.sim.state
     mc, cc = all_cases(ctx)
     for c in mc:
+        if getattr(c, 'alias', None):
+            ctx.fail('aliasing:measure_quantum_vector', c.alias, replay_of(c))
         if isinstance(c.res, str):
             ctx.fail('measure_quantum_vector:raises', f'measure_quantum_vector raised on qubits {list(c.subset)} of {c.n}', replay_of(c))
             continue
         bitstr, prob, q2 = c.res
         want = born(c.psi, c.subset, c.n)
-        if prob.shape != want.shape or not np.all(np.abs(prob - want) <= TOL) or np.any(prob < 0) or abs(prob.sum() - 1) > 1e-10:
+        t10 = max(1e-10, c.tol)
+        if prob.shape != want.shape or not np.all(np.abs(prob - want) <= c.tol) or np.any(prob < 0) or abs(prob.sum() - 1) > t10:
             ctx.fail('measure_quantum_vector:prob', 'probabilities are not the Born marginals', replay_of(c, observed=prob.tolist(), expected=want.tolist())); continue
         if len(bitstr) != len(c.subset) or want[c.ind1] <= 0:
             ctx.fail('measure_quantum_vector:outcome', 'returned outcome has zero probability / wrong length', replay_of(c, bitstr=[int(b) for b in bitstr])); continue
         mask = projector_mask(c.subset, bitstr, c.n)
         proj = np.where(mask, c.psi, 0)
         nrm = np.linalg.norm(proj)
-        if abs(np.linalg.norm(q2) - 1) > 1e-10 or nrm == 0 or not close(q2, proj / nrm, 1e-10):
+        if abs(np.linalg.norm(q2) - 1) > t10 or nrm == 0 or not close(q2, proj / nrm, t10):
             ctx.fail('measure_quantum_vector:post', 'post-measurement state is not the normalised projection onto the returned outcome',
                      replay_of(c, bitstr=[int(b) for b in bitstr], observed=repr(q2.tolist()))); continue
         # repeatability
@@ -457,7 +523,7 @@ def probe(ctx):
             ctx.fail('measure_quantum_vector:repeat', 'second measurement raised', replay_of(c)); continue
         b2, p2, q3 = again
         ind = np.zeros_like(p2); ind[c.ind1] = 1
-        if list(b2) != list(bitstr) or not np.all(np.abs(p2 - ind) <= 1e-10) or not close(q3, q2, 1e-10):
+        if list(b2) != list(bitstr) or not np.all(np.abs(p2 - ind) <= t10) or not close(q3, q2, t10):
             ctx.fail('measure_quantum_vector:repeat', 'measuring the same qubits again does not reproduce the outcome with certainty',
                      replay_of(c, first=[int(b) for b in bitstr], second=[int(b) for b in b2], prob_second=p2.tolist())); continue
         ctx.probe_ok(('probe',) + c.ntkey)
@@ -522,6 +588,7 @@ def replay(ctx, payload):
         n, subset, seed = r['n'], tuple(r['index']), r['seed']
         psi = np.array(eval(r['psi'], {'__builtins__': {}}, {}), dtype=np.complex128)
         c = MCase(); c.n, c.subset, c.family, c.psi, c.seed = n, subset, r.get('family', '?'), psi, seed
+        c.tol, c.alias, c.snap = (1e-5 if r.get('family') in ('complex64', 'float32') else TOL), None, None
         c.res = guarded(lambda: st.measure_quantum_vector(psi, subset, seed=np.random.default_rng(seed)))
         c.ind1 = 0 if isinstance(c.res, str) else (int(''.join(str(int(b)) for b in c.res[0]), 2) if len(c.res[0]) else 0)
         c.ntkey = ('replay',)
